@@ -333,7 +333,7 @@ pub fn run(tier: Tier) -> i32 {
     let mut ctx = Ctx::new("C11", tier);
     ctx.assume("virtual time: tokio's paused clock; timer granularity 1 ms is inside the tolerance band");
     ctx.assume("headers with a leading '+' are not generated (accepted by the std integer parser; the statement does not say whether they are numeric)");
-    ctx.run_part(Calls, tier.pick(15_000, 400_000));
-    ctx.run_part(Queued, tier.pick(3_000, 60_000));
+    ctx.run_part(Calls, tier.pick(15_000, 1_200_000));
+    ctx.run_part(Queued, tier.pick(3_000, 300_000));
     ctx.finish()
 }
